@@ -3,20 +3,89 @@
 NOTES = ("Static analysis only: every check parses /repo's current working tree and decides structural clauses that are "
          "necessary conditions of the property (see DESIGN.md); value-level behaviour is stated as not decided in each "
          "level_note. Exit 0 = all rule instances hold (KNOWN-FINDING lines for recorded genuine defects), 1 = VIOLATION, "
-         "2 = ANALYSIS-ERROR (checker could not analyse; fail closed).")
+         "2 = ANALYSIS-ERROR (checker could not analyse; fail closed). No check imports or runs stix2.")
+
+_TB = ("Trusted: CPython ast (and re._parser where regexes are analysed); Python binding/MRO/comparison semantics as encoded in "
+       "sa/; the frozen oracles under spec/. ")
+
+
+def _c(category, text, ref, note, technique):
+    return {"category": category, "text": text, "design_ref": ref, "note": _TB + note, "technique": technique}
+
 
 CHECKS = {
-    "C20": {
-        "category": "proof",
-        "text": "The ten conversion functions are finite decision tables over one argument; they are extracted syntactically and "
-                "the 25 obligations (5 scales x total / refuses-outside / monotone / round-trip / equals STIX 2.1 Appendix A) are "
-                "discharged by exact interval algebra over the integers. Decides the whole property for int arguments.",
-        "design_ref": "DESIGN.md section 5, C20",
-        "note": "Trusted: CPython ast, Python chained-comparison semantics as encoded in sa/dectable.py, the hand transcription of "
-                "Appendix A in spec/scales.json. Functions outside the supported syntactic class give ANALYSIS-ERROR, not a pass.",
-        "technique": "decision-table extraction from if/elif chains + exact interval algebra (static)",
-    },
+    "C01": _c("other",
+              "Decides structural necessary conditions of the lossless round trip on every registered type: registry key == class "
+              "_type for all 105 entries; detect_spec_version's branch structure interpreted symbolically over the serialised key "
+              "set (always/optional keys from the tables) of all 77 registered object/observable types; the two JSON encoders are "
+              "siblings and selected/forwarded correctly; the three conjuncts of the defaulted-optional bookkeeping; slot order "
+              "and timestamp (precision, constraint) of every table equal the specification model.",
+              "DESIGN.md section 5, C01",
+              "Does NOT decide value/byte equality of parse(serialize(x)) for all representable values, nor nested key ordering in "
+              "pretty output (runtime values; simplejson is third party).",
+              "table extraction + symbolic interpretation of the version detector + sibling comparison (ast)"),
+    "C02": _c("other",
+              "Every one of the 1382 property-table slots (+ decorator tables) is compared attribute by attribute with the frozen "
+              "specification model (kind, required, fixed, default, min/max, closed vocabularies, reference types, spec_version, "
+              "contained class, precision); all 35 _check_object_constraints summaries with the constraint model; must-pass-through "
+              "of the validation pipeline in _STIXBase.__init__ and of every super() chain; guard tables of the cleaners; identifier "
+              "rule; end-anchoring / alphabets / digest lengths of every value regex (re._parser); TLP constants.",
+              "DESIGN.md section 5, C02",
+              "Does NOT decide that each clean() computes the right value for every input (int()/float()/strptime/uuid/base64 "
+              "semantics) nor free-text formats the library does not model.",
+              "abstract evaluation of declarative tables vs frozen spec model; CFG must-pass-through; regex structure analysis"),
+    "C03": _c("other",
+              "Acceptance direction of the same table comparison (no slot stricter than the specification model), arity agreement "
+              "between the clean() dispatchers and every clean definition for every property kind occurring in a table, resolvable "
+              "reference type names, class dispatch of bundle / observed-data members on all paths, API calls with a domain narrower "
+              "than the specification (strptime %f), selector acceptance (shared with C08).",
+              "DESIGN.md section 5, C03",
+              "Does NOT decide that re-serialisation reproduces every input value (timestamps as instants, numbers). One recorded "
+              "known finding (more than 6 fractional digits are refused; the suite pins that behaviour).",
+              "table comparison + call-arity/binding check over resolved call sites + CFG must-pass-through"),
+    "C04": _c("other",
+              "Capability flow of allow_custom: every call site whose callee accepts the switch is classified by the def-use "
+              "provenance of the bound value (forwarded / weakened / hard-coded True / omitted with permissive default); no function "
+              "upgrades its switch; has_custom flows back in the seven container cleaners and the constructor with the strict-mode "
+              "CustomContentError on every CFG path between flag computation and return; privileged constructor keywords "
+              "(derived from the code) are neutralised at every Cls(**data) splat of input-derived data; raw dictionaries are "
+              "handed back only under allow_custom.",
+              "DESIGN.md section 5, C04",
+              "Does NOT decide the equivalence 'flag false <=> strict re-parse succeeds' for all objects (relates two executions).",
+              "interprocedural capability/provenance analysis over resolved call sites + CFG path checks"),
+    "C07": _c("other",
+              "Dispatch table of the six marking API functions and mixin membership; parameter-forwarding completeness at every "
+              "delegate call (def-use); one normalised match predicate shared by granular get_markings/is_marked; path-tree idiom "
+              "for ancestor/descendant tests; return shape of all mutators (new_version / sibling / untouched obj), no store into "
+              "the object; validate-first; set = clear then add; expand->compress normal form before new_version.",
+              "DESIGN.md section 5, C07",
+              "Does NOT decide the algebraic laws (idempotence, inverse, commutation) over operation sequences.",
+              "forwarding/provenance analysis + normalised sibling comparison + CFG must-pass-through"),
+    "C08": _c("other",
+              "The value yielded by the selector walk is never used in a boolean context in the validation call tree; list steps are "
+              "positional; validate() runs in the base constraint method, every override reaches it (super chain over all 34 "
+              "overrides) and every granular marking function validates before use; step formats agree with SELECTOR_REGEX; "
+              "unmatched/empty selectors raise.",
+              "DESIGN.md section 5, C08",
+              "Does NOT decide the walk on exotic mapping types; correctness on all objects follows from the shape only.",
+              "taint of the yielded value + provenance of list-step text + CFG must-pass-through"),
+    "C14": _c("other",
+              "For all exactly resolved call sites: an argument named like a callee parameter (version, allow_custom, "
+              "interoperability, _composite_filters, encoding, pretty, ...) is bound to that parameter; every value bound to an "
+              "`interoperability` parameter derives only from the caller's own switch; `version` is forwarded along the 23 anchored "
+              "call edges of memory.py/filesystem.py/parsing.py/properties.py down to parse(); the detector runs only without a "
+              "named version.",
+              "DESIGN.md section 5, C14",
+              "Does NOT decide the class returned for every dictionary. CHA/unresolved call sites are listed in evidence, not judged.",
+              "argument-binding check over the resolved call graph + def-use provenance"),
+    "C20": _c("proof",
+              "The ten conversion functions are finite decision tables over one argument; they are extracted syntactically and "
+              "the 25 obligations (5 scales x total / refuses-outside / monotone / round-trip / equals STIX 2.1 Appendix A) are "
+              "discharged by exact interval algebra over the integers. Decides the whole property for int arguments.",
+              "DESIGN.md section 5, C20",
+              "Functions outside the supported syntactic class give ANALYSIS-ERROR, not a pass.",
+              "decision-table extraction from if/elif chains + exact interval algebra (static)"),
 }
 
 _PENDING = "check under construction in this session (static rules designed in DESIGN.md section 5; not yet registered)"
-NOT_APPLICABLE = {("C%02d" % i): _PENDING for i in range(1, 20)}
+NOT_APPLICABLE = {("C%02d" % i): _PENDING for i in range(1, 21) if ("C%02d" % i) not in CHECKS}
